@@ -91,6 +91,17 @@ static void body(void) {
         workers = 1 + vx_choose(2); overlap = 9; { int half = vx_choose(3); size_t h = half == 0 ? g_jobsize / 2 : half == 1 ? g_jobsize / 4 : g_jobsize - 1;
         st[0] = (step_t){ h, 1u << 20, ZSTD_e_flush, 0 }; for (int k = 1; k <= 6; k++) st[k] = (step_t){ h + (size_t)k * g_jobsize, 1u << 20, ZSTD_e_continue, 0 };
         n = h + 6 * g_jobsize + 100; st[7] = (step_t){ n, 1u << 20, ZSTD_e_end, 0 }; nsteps = 8; checksum = 1; } break; }
+    case 16: {   /* long-distance matching with 3-4 workers and 16 jobs fed two at a time: the caller runs several sections ahead of a delayed job's serial step while the round buffer wraps */
+        workers = 3 + vx_choose(2); ldm = 1; checksum = 1; n = 24 * g_jobsize + 50;      /* window 4 KiB: the round buffer (window + slack) wraps every ~7 jobs */
+        for (int k = 0; k < 12; k++) st[k] = (step_t){ (size_t)(k + 1) * 2 * g_jobsize, 1u << 20, ZSTD_e_continue, 0 };
+        st[12] = (step_t){ n, 1u << 20, ZSTD_e_end, 0 }; nsteps = 13; break; }
+    case 15: {   /* rsyncable with real synchronisation points (jobs of 256 KiB, 2.5 MiB of input): end / flush directives that carry payload, or arrive empty */
+        int pat = vx_choose(4); workers = 1 + vx_choose(2); rsync = 1; checksum = 1; explicitWlog = 0; jobsize = 256u << 10; level = 1; n = (5u << 19) + 777;
+        if (pat == 0) { st[0] = (step_t){ n, 1u << 22, ZSTD_e_end, 0 }; nsteps = 1; }
+        else if (pat == 1) { st[0] = (step_t){ n / 2, 1u << 22, ZSTD_e_continue, 0 }; st[1] = (step_t){ n, 1u << 22, ZSTD_e_end, 0 }; nsteps = 2; }
+        else if (pat == 2) { st[0] = (step_t){ n, 1u << 22, ZSTD_e_continue, 0 }; st[1] = (step_t){ n, 1u << 22, ZSTD_e_end, 0 }; nsteps = 2; }
+        else { st[0] = (step_t){ n / 3, 65536, ZSTD_e_continue, 0 }; st[1] = (step_t){ 2 * n / 3, 65536, ZSTD_e_flush, 0 }; st[2] = (step_t){ n, 65536, ZSTD_e_end, 0 }; nsteps = 3; }
+        pairIdx = pat; break; }
     case 13: {   /* parameters changed between jobs with NO explicit window: the window announced by job 0 must bound every later job.  Jobs of 1 MiB so
                   * that a repeat further back than the first level's window still lies inside one job; one default schedule per configuration. */
         static const int LV[][2] = {{1, 7}, {1, 3}, {3, 1}, {7, 1}, {1, 13}, {-1, 6}}; int pi = vx_choose(6); pairIdx = pi; workers = 1 + vx_choose(2); level = LV[pi][0]; explicitWlog = 0; jobsize = 1u << 20;
@@ -102,7 +113,9 @@ static void body(void) {
     /* input: text with a planted long repeat so that LDM and the overlap window have something to find */
     fill_text(g_src, n, 5 + (uint32_t)g_driver);
     if (n > 5 * g_jobsize) memcpy(g_src + 4 * g_jobsize + 77, g_src + 100, g_jobsize / 2);
+    if (g_driver == 16) for (int k = 5; k < 24; k++) memcpy(g_src + (size_t)k * g_jobsize + 33, g_src + (size_t)(k - 4) * g_jobsize + 33, g_jobsize / 2);      /* every job repeats what four jobs earlier held */
     if (g_driver == 8) fill_noise(g_src + n / 3, n / 3, 4);
+    if (g_driver == 15) { for (size_t q = 40000; q + 30000 < n; q += 170000) fill_noise(g_src + q, 30000, (uint32_t)q); }
     if (g_driver == 13) { fill_noise(g_src, n, 3); for (size_t q = (1u << 20) + 750000; q + 4000 < n; q += 90000) memcpy(g_src + q, g_src + q - 700000, 3000); }     /* only the planted repeats (distance 700 000 > 2^19) can match */
 
     vs_config_t cfg; memset(&cfg, 0, sizeof cfg);
@@ -114,7 +127,7 @@ static void body(void) {
         ZSTD_CCtx_setParameter(c, ZSTD_c_nbWorkers, (frame == 1 && workers2) ? workers2 : workers);
         ZSTD_CCtx_setParameter(c, ZSTD_c_jobSize, (int)jobsize);
         ZSTD_CCtx_setParameter(c, ZSTD_c_compressionLevel, level);
-        if (explicitWlog) ZSTD_CCtx_setParameter(c, ZSTD_c_windowLog, g_driver == 8 ? 17 : (ldm ? 14 : 10));
+        if (explicitWlog) ZSTD_CCtx_setParameter(c, ZSTD_c_windowLog, g_driver == 8 ? 17 : g_driver == 16 ? 12 : (ldm ? 14 : 10));
         ZSTD_CCtx_setParameter(c, ZSTD_c_checksumFlag, checksum);
         if (overlap) ZSTD_CCtx_setParameter(c, ZSTD_c_overlapLog, overlap);
         if (rsync) ZSTD_CCtx_setParameter(c, ZSTD_c_rsyncable, 1);
@@ -145,13 +158,15 @@ static void body(void) {
     if (r != n || memcmp(g_out, g_src, n)) { vx_fail("driver %d: frame decodes to different content", g_driver); return; }
     refcheck_t rc; rc_init(&rc); rc.interop = 1; rc.expectChecksum = checksum; rc.expectFCS = (nsteps == 1) ? 1 : 0;
     if (ref_check(&rc, g_dst, produced, dict, dictLen, g_src, n, g_scratch, SRCMAX)) { vx_fail("driver %d: conformance: %s", g_driver, rc.err); return; }
-    if (ldm && rc.maxOffset < 3 * g_jobsize) { vx_fail("driver %d: long-distance matching enabled but the planted %zu-byte repeat at distance %zu was not used (max offset %zu)", g_driver, g_jobsize / 2, 4 * g_jobsize - 23, rc.maxOffset); return; }
+    if (ldm && g_driver == 3 && rc.maxOffset < 3 * g_jobsize) { vx_fail("driver %d: long-distance matching enabled but the planted %zu-byte repeat at distance %zu was not used (max offset %zu)", g_driver, g_jobsize / 2, 4 * g_jobsize - 23, rc.maxOffset); return; }
     /* C07: one output per subject, whatever the schedule and the number of workers */
     uint64_t h = vx_hash(g_dst, produced) | 1;
     int slot = (g_driver * 64 + overlap * 5 + dictMode * 16 + (abortAt >= 0 ? 0 : 0)) & 4095;
     if (g_driver == 6 || g_driver == 9 || g_driver == 10) slot = (g_driver * 64) & 4095;
     if (g_driver == 13) slot = (13 * 64 + pairIdx) & 4095;
     if (g_driver == 14) slot = (14 * 64 + (int)(n % 61)) & 4095;
+    if (g_driver == 16) slot = (16 * 64) & 4095;
+    if (g_driver == 15) slot = (15 * 64 + pairIdx) & 4095;
     if (g_driver == 12) slot = (12 * 64 + (int)(n % 61)) & 4095;                /* D12's input and call boundaries depend on its choices: one subject per (n) */   /* second frame is the same subject for every abort point / worker change */
     uint64_t prev = __sync_val_compare_and_swap(&g_first[slot], 0, h);
     if (prev != 0 && prev != h) { vx_fail("differential: driver %d: output differs between schedules / worker counts for the same input and parameters", g_driver); return; }
